@@ -13,7 +13,7 @@ import (
 func vAddr(name string) sdk.Address { return sdk.Address(zz.Bytes(name, sdk.AddrLen)) }
 
 func vStake(name string) sdk.Int {
-	hi := new(big.Int).Mul(big.NewInt(1000000), new(big.Int).Lsh(big.NewInt(1), 62))
+	hi := new(big.Int).Mul(big.NewInt(1000000), new(big.Int).Lsh(big.NewInt(1), 40))
 	if !zz.Thorough() {
 		hi = new(big.Int).Mul(big.NewInt(1000000), new(big.Int).Lsh(big.NewInt(1), 24))
 	}
@@ -61,7 +61,7 @@ func VerifC20_AddressKeys() {
 func VerifC20_BigEndian() {
 	hi := uint64(1<<32 - 1)
 	if zz.Thorough() {
-		hi = ^uint64(0)
+		hi = 1<<48 - 1
 	}
 	x := zz.Uint64("x", 0, hi)
 	y := zz.Uint64("y", 0, hi)
